@@ -780,12 +780,16 @@ class QCumulantFlow(FlowInterface.FlowInterface):
             qn = self.__Qn(phi_bin_poi, self.n_)
             q2n = self.__Qn(phi_bin_poi, 2 * self.n_)
 
-        # compute Eq. (28) Ref. [2]
-        corr2_ev = (pn * Qn.conj() - mq) / (mp * M - mq)
         # compute Eq. (24) Ref. [2]
         w2 = mp * M - mq
+        # compute Eq. (28) Ref. [2], events without a particle of interest in
+        # the bin have weight zero and do not contribute
+        sum2_ev = pn * Qn.conj() - mq
+        corr2_ev = np.divide(
+            sum2_ev, w2, out=np.zeros_like(sum2_ev), where=(w2 != 0)
+        )
         # compute Eq. (29) Ref. [2]
-        corr2 = np.vdot(w2, corr2_ev) / np.sum(w2)
+        corr2 = np.sum(sum2_ev) / np.sum(w2)
 
         vn_bin = self.__flow_from_cumulant_differential(
             full_event_quantities[2], corr2
@@ -815,8 +819,10 @@ class QCumulantFlow(FlowInterface.FlowInterface):
 
         if self.k_ == 4:
             Q2n = np.array(full_event_quantities[5])
+            # compute Eq. (25) Ref. [2]
+            w4 = (mp * M - 3.0 * mq) * (M - 1) * (M - 2)
             # compute Eq. (32) Ref. [2]
-            corr4_ev = (
+            sum4_ev = (
                 pn * Qn * Qn.conj() * Qn.conj()
                 - q2n * Qn.conj() * Qn.conj()
                 - pn * Qn * Q2n.conj()
@@ -828,11 +834,12 @@ class QCumulantFlow(FlowInterface.FlowInterface):
                 + 2.0 * pn * Qn.conj()
                 + 2.0 * mq * M
                 - 6.0 * mq
-            ) / ((mp * M - 3.0 * mq) * (M - 1) * (M - 2))
-            # compute Eq. (25) Ref. [2]
-            w4 = (mp * M - 3.0 * mq) * (M - 1) * (M - 2)
+            )
+            corr4_ev = np.divide(
+                sum4_ev, w4, out=np.zeros_like(sum4_ev), where=(w4 != 0)
+            )
             # compute Eq. (33) Ref. [2]
-            corr4 = np.vdot(w4, corr4_ev) / np.sum(w4)
+            corr4 = np.sum(sum4_ev) / np.sum(w4)
             # compute Eq. (34) Ref. [2]
             dn4 = corr4 - 2.0 * corr2 * full_event_quantities[2]
             # compute Eq. (12) Ref. [2]
